@@ -18,6 +18,7 @@ import (
 	"strings"
 	"sync"
 	"sync/atomic"
+	"syscall"
 	"testing"
 	"time"
 
@@ -489,20 +490,35 @@ func vfC06LookupAll(
 		}
 	}()
 
+	// Non-termination is a verdict only when this process itself has burnt the
+	// watchdog budget in CPU time since the call started: a stalled or heavily
+	// oversubscribed machine makes wall-clock time alone meaningless (a lookup
+	// takes microseconds of CPU; a CNAME loop burns a full core).
 	wd := vfC06Watchdog
 	if vfC06Hung.Load() {
 		wd = vfC06WatchdogShort
 	}
+	start, cpu0 := time.Now(), vfC06CPUTime()
 	timer := time.NewTimer(wd)
 	defer timer.Stop()
 
 	var rets []vfC06Ret
-	select {
-	case rets = <-ch:
-	case <-timer.C:
-		vfC06Hung.Store(true)
-		t.Fatalf("non-termination: CheckHost(%q, %d) did not return within %s; table %+v", host, qtype, wd,
-			orders[at.Load()])
+	for rets == nil {
+		select {
+		case rets = <-ch:
+		case <-timer.C:
+			cpu := vfC06CPUTime()
+			if cpu0 < 0 || cpu < 0 || cpu-cpu0 >= wd {
+				vfC06Hung.Store(true)
+				t.Fatalf("non-termination: CheckHost(%q, %d) did not return within %s of CPU time (%s wall); table %+v",
+					host, qtype, wd, time.Since(start).Round(time.Millisecond), orders[at.Load()])
+			}
+			if time.Since(start) > 60*vfC06Watchdog {
+				t.Fatalf("VERIF-INCONCLUSIVE machine stalled: CheckHost(%q, %d) pending for %s with %s of CPU used",
+					host, qtype, time.Since(start), cpu-cpu0)
+			}
+			timer.Reset(wd / 4)
+		}
 	}
 
 	gots = make([]vfC06Got, len(rets))
@@ -511,6 +527,17 @@ func vfC06LookupAll(
 	}
 
 	return gots
+}
+
+// vfC06CPUTime returns the CPU time (user+system) this process has used, or a
+// negative value when it cannot be read.
+func vfC06CPUTime() (d time.Duration) {
+	var ru syscall.Rusage
+	if err := syscall.Getrusage(syscall.RUSAGE_SELF, &ru); err != nil {
+		return -1
+	}
+
+	return time.Duration(ru.Utime.Nano() + ru.Stime.Nano())
 }
 
 // vfC06Observe reduces a result to its observable part and checks its form.
